@@ -530,6 +530,10 @@ def cmp_semantics(v):
         raise me.Undecided(f'comparison of {names}')
     if k == 'band':
         return cmp_semantics(v[1]) | cmp_semantics(v[2])
+    if k == 'bnot' and v[1][0] == 'valid':
+        # "not valid": some assignment falsifies the structure
+        return frozenset([('not-valid', me.table(
+            v[1][1], ('self', 'other')))])
     raise me.Undecided(f'comparison result {me.show(v)}')
 
 
@@ -873,3 +877,112 @@ def r_ite_terminals(P, R):
                     f'ite({const}, {u}, {v}) returns {me.show(r)} instead '
                     f'of {want}', unit=fn.unit.rel, line=fn.lineno)
 r_ite_terminals.NAME = 'R-OPTAB(ite terminal cases)'
+
+
+def r_ite_rewrites(P, R):
+    """Operand rewrites in `_ite` before the cache lookup ("standard
+    triples") must preserve ite(g, u, v): each rewrite is evaluated over
+    the Boolean domain under the equalities assumed by its guard."""
+    from .. import paths as pa
+    q = 'dd.bdd.BDD._ite' if R.prop != 'C15' else 'dd.mdd.MDD.ite'
+    f = P.func(q)
+    params = [p for p in f.params if p != 'self']
+    if len(params) != 3:
+        raise AnalysisError(f'{q} no longer takes (g, u, v)')
+    plist = pa.function_paths(f.node)
+    n = 0
+    rewrites = 0
+    reported = set()
+    for path in plist:
+        env = {p: ('sym', p) for p in params}
+        fixed = dict()     # parameter -> constant assumed by a guard
+        changed = False
+        done = False
+        for it in path:
+            if done:
+                break
+            if it[0] == 'test' and it[2] is True:
+                conj = it[1].values if isinstance(
+                    it[1], ast.BoolOp) and isinstance(
+                        it[1].op, ast.And) else [it[1]]
+                for t in conj:
+                    if isinstance(t, ast.Compare) and len(
+                            t.ops) == 1 and isinstance(
+                                t.ops[0], ast.Eq) and isinstance(
+                                    t.left, ast.Name) and au.const_int(
+                                        t.comparators[0]) in (1, -1):
+                        cur = env.get(t.left.id)
+                        if cur and cur[0] == 'sym':
+                            fixed[cur[1]] = (au.const_int(
+                                t.comparators[0]) == 1)
+            if it[0] == 'stmt':
+                st = it[1]
+                if isinstance(st, ast.Return):
+                    break
+                if isinstance(st, ast.Assign):
+                    t, v = st.targets[0], st.value
+                    # the cache key / lookup marks the end of the
+                    # prologue
+                    if (isinstance(v, ast.Tuple) and isinstance(
+                            t, ast.Name) and set(
+                                au.names_loaded(v)) <= set(params)
+                            and len(v.elts) >= 2) or \
+                            '_ite_table' in au.src(v):
+                        done = True
+                        break
+                    ev = me.Evaluator(dict())
+                    if isinstance(t, ast.Tuple) and isinstance(
+                            v, ast.Tuple) and len(t.elts) == len(v.elts):
+                        vals = [me.as_bexp(ev.expr(x, env))
+                                for x in v.elts]
+                        for a, b in zip(t.elts, vals):
+                            if isinstance(a, ast.Name) and a.id in params:
+                                env[a.id] = b
+                                changed = True
+                    elif isinstance(t, ast.Name) and t.id in params:
+                        env[t.id] = me.as_bexp(ev.expr(v, env))
+                        changed = True
+        if not done:
+            continue
+        n += 1
+        if not changed:
+            continue
+        rewrites += 1
+
+        def subst(x):
+            if x[0] == 'sym' and x[1] in fixed:
+                return ('const', fixed[x[1]])
+            if x[0] in ('sym', 'const', 'unknown'):
+                return x
+            return (x[0],) + tuple(
+                subst(y) if isinstance(y, tuple) else y for y in x[1:])
+        try:
+            new = me.table(subst(('ite',) + tuple(
+                env[p] for p in params)), tuple(params))
+            old = me.table(subst(('ite',) + tuple(
+                ('sym', p) for p in params)), tuple(params))
+        except me.Undecided as e:
+            R.undecided('R-OPTAB', q, 'operand rewrite', str(e))
+            continue
+        what = ', '.join(f'{p} := {me.show(env[p])}' for p in params
+                         if env[p] != ('sym', p))
+        cond = ', '.join(f'{k} == {"true" if v else "false"}'
+                         for k, v in fixed.items())
+        if new == old:
+            R.holds('R-OPTAB', q, f'rewrite [{what}] under [{cond}] '
+                    'preserves ite(g, u, v)')
+        elif what not in reported:
+            reported.add(what)
+            R.violation(
+                'R-OPTAB', 'ite-rewrite', q, what,
+                f'before the cache lookup the operands are rewritten '
+                f'[{what}] under the assumption [{cond}]; '
+                f'ite of the rewritten operands is not ite(g, u, v) '
+                '(truth tables differ): the wrong function is computed '
+                'and cached for this shape of operands',
+                unit=f.unit.rel, line=f.lineno, path=pa.describe(path))
+    if not rewrites:
+        R.holds('R-OPTAB', q, f'{n} path(s) reach the cache lookup with '
+                'the operands unchanged', nontrivial=False)
+    R.floor(f'R-OPTAB paths to the cache lookup of {q}', n, 1)
+r_ite_rewrites.NAME = 'R-OPTAB(operand rewrites in ite)'
